@@ -1551,3 +1551,150 @@ func c08r18(rc *core.RC) {
 		rc.Check(handled[op], key+"/"+op, conv.Pos(), "%s follows one pointer less below the generic head of a direct root struct (%s has a case for it that lowers PtrNum)", op, convFn.Name())
 	}
 }
+
+// ---- C08.R19 a word view of a string stays inside the string ----
+
+// evalWithLen folds an integer expression in which len(<obj>) stands for L.
+func evalWithLen(info *types.Info, e ast.Expr, obj types.Object, L int64) (int64, bool) {
+	e = core.Unparen(e)
+	if v, ok := core.ConstInt(info, e); ok {
+		return v, true
+	}
+	switch x := e.(type) {
+	case *ast.CallExpr:
+		if core.IsBuiltin(info, x, "len") && len(x.Args) == 1 && core.ObjOf(info, x.Args[0]) == obj {
+			return L, true
+		}
+		if tv, ok := info.Types[x.Fun]; ok && tv.IsType() && len(x.Args) == 1 { // conversion
+			return evalWithLen(info, x.Args[0], obj, L)
+		}
+	case *ast.BinaryExpr:
+		a, ok1 := evalWithLen(info, x.X, obj, L)
+		b, ok2 := evalWithLen(info, x.Y, obj, L)
+		if !ok1 || !ok2 {
+			return 0, false
+		}
+		switch x.Op {
+		case token.ADD:
+			return a + b, true
+		case token.SUB:
+			return a - b, true
+		case token.MUL:
+			return a * b, true
+		case token.QUO:
+			if b == 0 {
+				return 0, false
+			}
+			return a / b, true
+		case token.REM:
+			if b == 0 {
+				return 0, false
+			}
+			return a % b, true
+		case token.SHR:
+			return a >> uint(b), true
+		case token.SHL:
+			return a << uint(b), true
+		case token.AND:
+			return a & b, true
+		case token.AND_NOT:
+			return a &^ b, true
+		}
+	}
+	return 0, false
+}
+
+// The string appenders scan eight bytes at a time through a []uint64 laid over the bytes of the string. The view
+// must not reach past the string: for every length L its Len and Cap, times the eight bytes of a word, are at most L
+// (folded for L = 0 … 300). A view that rounds up reads up to seven bytes that do not belong to the value; at the end
+// of a mapping that is a fault.
+func c08r19(rc *core.RC) {
+	p := rc.P
+	n := 0
+	for _, short := range []string{"encoder", "decoder", "runtime", "json"} {
+		for _, fd := range p.Funcs(short) {
+			if fd.Body == nil {
+				continue
+			}
+			info := p.Info(fd)
+			ast.Inspect(fd.Body, func(m ast.Node) bool {
+				cl, ok := m.(*ast.CompositeLit)
+				if !ok {
+					return true
+				}
+				tv, has := info.Types[cl]
+				if !has || tv.Type.String() != "reflect.SliceHeader" {
+					return true
+				}
+				// the string whose bytes the view is laid over
+				var src types.Object
+				var lenE, capE ast.Expr
+				for _, el := range cl.Elts {
+					kv, isKV := el.(*ast.KeyValueExpr)
+					if !isKV {
+						continue
+					}
+					switch kv.Key.(*ast.Ident).Name {
+					case "Data":
+						ast.Inspect(kv.Value, func(k ast.Node) bool {
+							if u, isAddr := k.(*ast.UnaryExpr); isAddr && u.Op == token.AND {
+								if o := core.ObjOf(info, u.X); o != nil {
+									if b, isBasic := o.Type().Underlying().(*types.Basic); isBasic && b.Kind() == types.String {
+										src = o
+									}
+								}
+							}
+							return true
+						})
+					case "Len":
+						lenE = kv.Value
+					case "Cap":
+						capE = kv.Value
+					}
+				}
+				if src == nil || lenE == nil || capE == nil {
+					return true
+				}
+				// the element size of the slice type the header is cast to: the enclosing conversion *(*[]T)(…)
+				elemSize := int64(0)
+				for _, anc := range core.PathTo(fd.Body, cl) {
+					if c, isCall := anc.(*ast.CallExpr); isCall {
+						if t, isT := info.Types[c.Fun]; isT && t.IsType() {
+							if pt, isPtr := t.Type.Underlying().(*types.Pointer); isPtr {
+								if sl, isSl := pt.Elem().Underlying().(*types.Slice); isSl {
+									elemSize = p.PkgOfDecl(fd).TypesSizes.Sizeof(sl.Elem())
+								}
+							}
+						}
+					}
+				}
+				n++
+				fn := p.FuncName(fd)
+				rc.Touch(fn)
+				key := fn + "/word-view-inside-the-string"
+				if elemSize == 0 {
+					rc.Unknown(key, cl.Pos(), "the element type of the view was not found")
+					return true
+				}
+				for L := int64(0); L <= 300; L++ {
+					for _, e := range []ast.Expr{lenE, capE} {
+						v, ok := evalWithLen(info, e, src, L)
+						if !ok {
+							rc.Unknown(key, e.Pos(), "the length %s of the view could not be folded", core.Src(p.Fset, e))
+							return true
+						}
+						if v < 0 || v*elemSize > L {
+							rc.Bad(key, e.Pos(), "for a string of %d bytes the view holds %d words of %d bytes (%s): it reaches %d bytes past the end of the string, memory that does not belong to the value (a fault when the string ends at the end of a mapping)", L, v, elemSize, core.Src(p.Fset, e), v*elemSize-L)
+							return true
+						}
+					}
+				}
+				rc.OK(key, cl.Pos(), "Len %s and Cap %s times %d bytes never exceed the length of the string (folded for lengths 0 to 300)", core.Src(p.Fset, lenE), core.Src(p.Fset, capE), elemSize)
+				return true
+			})
+		}
+	}
+	if n < 1 {
+		rc.Unknown("module/word-views", token.NoPos, "no reflect.SliceHeader laid over a string found (confirmed: encoder.stringToUint64Slice)")
+	}
+}
